@@ -35,8 +35,13 @@ def pop_binder():
     BINDER_DEPTH[0] -= 1
 
 
+CREATED: list = []  # every constant made by fresh_v / fresh_int / fresh_bool, in creation order (comprehension capture)
+
+
 def fresh_v(prefix: str = "v"):
-    return z3.Const(fresh_name(prefix), V)
+    c = z3.Const(fresh_name(prefix), V)
+    CREATED.append(c)
+    return c
 
 
 # Event clock (allocation order, used ONLY syntactically by the heap rewriter): every allocation and every creation of
@@ -112,11 +117,15 @@ def next_family():
 
 
 def fresh_int(prefix: str = "i"):
-    return z3.Int(fresh_name(prefix))
+    c = z3.Int(fresh_name(prefix))
+    CREATED.append(c)
+    return c
 
 
 def fresh_bool(prefix: str = "b"):
-    return z3.Bool(fresh_name(prefix))
+    c = z3.Bool(fresh_name(prefix))
+    CREATED.append(c)
+    return c
 
 
 # ---- distinguished constants -------------------------------------------------------------
